@@ -268,10 +268,25 @@ def trace_cfg(c, name, bind_read, bind_merge, bind_clock, invariants):
     return name
 
 
-def validate(c, sessions, cfg, label, max_fail=12):
-    """Validate concatenated sessions; a rejected session is set aside and the rest is validated again.
-    Returns (accepted_count, failures) with failures = [(session index, event index in session, reason, event)]."""
-    alive = list(range(len(sessions)))
+def validate(c, sessions, cfg, label, max_fail=12, chunk=150):
+    """Validate concatenated sessions, `chunk` sessions per TLC run (the time of one run grows faster than the length of its trace:
+    120 000 events in one run took half an hour, the same events in runs of 15 000 take three minutes); a rejected session is set
+    aside and the rest of its chunk is validated again.
+    Returns (accepted_count, failures, events) with failures = [(session index, event index in session, reason, event)]."""
+    n_ok, failures, events = 0, [], 0
+    order = list(range(len(sessions)))
+    for start in range(0, len(order), chunk):
+        if len(failures) >= max_fail:
+            break
+        ok, fs, ev = _validate_chunk(c, sessions, order[start:start + chunk], cfg, label, max_fail - len(failures))
+        n_ok += ok
+        failures += fs
+        events += ev
+    return n_ok, failures, events
+
+
+def _validate_chunk(c, sessions, alive, cfg, label, max_fail):
+    alive = list(alive)
     failures = []
     events_total = 0
     while alive:
